@@ -45,3 +45,26 @@ Section T12.
     rewrite E. reflexivity.
   Qed.
 End T12.
+
+(* ---- C12 (chunking clause) stated about the GENERATED _chunks: the definition produced from the source text
+   always answers; the chunks it yields, concatenated, are the jobs in their original order; no chunk is empty;
+   for n > 0 every chunk but the last has exactly n jobs and the last between 1 and n. ---- *)
+From PV Require Import Props.C12.
+
+Theorem tie_c12_generated_chunks_concat : forall (A : Type) (n : Z) (l : list A),
+  exists cs, Core.chunks A l n = Some cs /\ concat cs = l /\ Forall (fun c => c <> []) cs.
+Proof.
+  intros A n l. exists (chunks n l). split; [apply tie_chunks|].
+  split; [apply c12_chunks_concat|apply c12_chunks_nonempty].
+Qed.
+
+Theorem tie_c12_generated_chunks_sizes : forall (A : Type) (n : Z) (l : list A) (pre : list (list A)) (last : list A),
+  (0 < n)%Z -> Core.chunks A l n = Some (pre ++ [last]) ->
+  Forall (fun c => Z.of_nat (length c) = n) pre /\ (0 < Z.of_nat (length last) <= n)%Z.
+Proof.
+  intros A n l pre last Hn H. rewrite tie_chunks in H. injection H as H.
+  exact (c12_chunks_sizes A n l pre last Hn H).
+Qed.
+
+Print Assumptions tie_c12_generated_chunks_concat.
+Print Assumptions tie_c12_generated_chunks_sizes.
